@@ -1,9 +1,92 @@
 import PraatModel.Proto
+import PraatModel.RunAudio
+import PraatModel.Zero
 
-/-! # driver operations for C18: zero-crossing search and splicing (extension point of `Run.lean`) -/
+/-! # driver operations for C18: zero-crossing search and splicing (extension point of `Run.lean`)
 
+Token syntax of this group (on top of `Proto.lean` and `RunAudio.lean`):
+* ticks     : decimal integers — times of the search in units of `1/(rate·m)` s (see `Zero.lean`)
+* zc value  : `V <time>` or `E <ClassName>` — what `findNearestZeroCrossing` returned / raised
+-/
+
+namespace ZeroProto
+open Audio AudioProto Zero
+
+def optNat : Option Nat → String
+  | none => "N"
+  | some i => toString i
+
+def outExcT (f : Int → String) : Except Err Int → String
+  | .ok v => "ok " ++ f v
+  | .error e => "err " ++ e.name
+
+def errOfName : String → Err
+  | "ArgumentError" => .ArgumentError
+  | "FindZeroCrossingError" => .FindZeroCrossingError
+  | "CollisionError" => .CollisionError
+  | "TextgridStateError" => .TextgridStateError
+  | "error" => .StructError
+  | "KeyError" => .KeyError
+  | "IndexError" => .IndexError
+  | _ => .ValueError
+
+/-- `V <time>` | `E <ClassName>` -/
+def zcVal {α} [Proto α] : P (Except Err α) := do
+  match (← P.tok) with
+  | "V" => do let x ← P.time (α := α); pure (.ok x)
+  | "E" => do let n ← P.tok; pure (.error (errOfName n))
+  | t => throw s!"bad zc value {t}"
+
+/-- the table `time ↦ findNearestZeroCrossing(time)` shipped by the harness, looked up by `==` -/
+def lookup {α} [BEq α] (tbl : List (α × Except Err α)) (x : α) : Except Err α :=
+  match tbl.find? (fun p => p.1 == x) with
+  | some p => p.2
+  | none => .error .KeyError
+end ZeroProto
+
+open Audio AudioProto Zero ZeroProto in
 /-- `none` = not an operation of this group.  `α` is the number type of the run (`Float` or `Int`). -/
 def runOpZero (α : Type) [LT α] [LE α] [DecidableLT α] [DecidableLE α] [BEq α] [Add α] [Sub α] [Tm α] [Proto α]
     (op : String) : Option (P String) :=
   match op with
+  | "z_next" => some do
+    let rev ← P.bool; let xs ← samples
+    pure s!"ok {optNat (nearestZero xs rev)} {optNat (thresholdCrossing xs rev)} {optNat (nextIdx xs rev)}"
+  | "z_sign" => some do
+    let x ← P.int
+    pure s!"ok {sign x}"
+  | "z_interval" => some do
+    let s ← P.int; let d ← P.int; let mx ← P.int; let rev ← P.bool
+    let w := getInterval s d mx rev
+    pure s!"ok {w.1} {w.2}"
+  | "z_choose" => some do
+    let t ← P.int; let a ← P.opt P.int; let b ← P.opt P.int
+    pure (outExcT toString (chooseClosestTime t a b))
+  | "z_find" => some do
+    let wv ← wav; let m ← P.nat; let t ← P.int; let s ← P.int
+    if m = 0 then throw "m = 0"
+    pure (outExcT toString (searchWav wv m t s))
+  | "z_shift" => some do
+    let g ← P.tg (α := α); let v ← P.time; let nv ← P.time
+    pure (Out.exc Out.tg (shiftTimes g v nv))
+  | "z_tgzc" => some do
+    let g ← P.tg (α := α); let ap ← P.bool; let ai ← P.bool
+    let k ← P.nat
+    let tbl ← P.many k (do let t ← P.time (α := α); let v ← zcVal (α := α); pure (t, v))
+    pure (Out.exc Out.tg (tgBoundaries (lookup tbl) g ap ai))
+  | "z_splice" => some do
+    let g ← P.tg (α := α)
+    let k ← P.nat
+    let shifts ← P.many k (do let o ← P.time (α := α); let n ← P.time (α := α); pure (o, n))
+    let name ← P.str; let label ← P.str
+    let a ← P.time (α := α); let b ← P.opt (P.time (α := α)); let d ← P.time (α := α)
+    let au ← P.opt (do
+      let wv ← wav; let seg ← bytes; let qa ← qtime; let qb ← P.opt qtime
+      pure (spliceWav wv seg qa qb))
+    let aus := match au with
+      | none => "N"
+      | some w => outBytes w.frames
+    match spliceTg g shifts name label a b d with
+    | .ok g' => pure s!"ok {Out.tg g'} {aus}"
+    | .error e => pure s!"err {e.name}"
   | _ => none
